@@ -23,6 +23,14 @@ def run_to_path(rng, args, inp, state=None, kind="release"):
     out = E.tmpfile(stale, rng.choice([".out", ".npy", ".sfs", ".txt", ".NPY", ".npy.txt", ""]))
     if state == "absent":
         os.unlink(out)
+    nbs = []
+    for nb in neighbours(out):
+        if not os.path.exists(nb):
+            content = ("neighbour of %s\n" % os.path.basename(out)).encode() * 3
+            with open(nb, "wb") as f_:
+                f_.write(content)
+            nbs.append((nb, content))
+    run_to_path.last_neighbours = nbs
     if state == "in-place":
         r = cli.sfs(list(args) + ["-o", out, out], kind=kind)
     else:
@@ -31,13 +39,58 @@ def run_to_path(rng, args, inp, state=None, kind="release"):
     return r, found, state, stale
 
 
+def neighbours(out):
+    """Files that live next to an output file and must survive its being written: same stem with other extensions, editor leftovers."""
+    d, name = os.path.split(out)
+    stem = name.rsplit(".", 1)[0] if "." in name.strip(".") else name
+    names = {stem + ".tmp", name + ".tmp", stem + ".bak", name + "~", "." + name + ".swp", stem + ".partial", stem}
+    names.discard(name)
+    return [os.path.join(d, n_) for n_ in sorted(names)]
+
+
+def check_concurrent_siblings(S, sig, tag, rng, args, inp):
+    """Two invocations at the same time (a parallel make), writing outputs that share a stem and differ in the extension:
+    each file must hold what its command writes to a pipe."""
+    import threading
+    base = E.tmpfile(b"", ".stem")
+    os.unlink(base)
+    outs = [base[:-5] + ext for ext in rng.sample([".sfs", ".npy", ".txt", ".out"], 2)]
+    runs = [None, None]
+
+    def go(k):
+        runs[k] = cli.sfs(list(args) + ["-o", outs[k]], stdin=inp)
+    ths = [threading.Thread(target=go, args=(k,)) for k in (0, 1)]
+    for t in ths:
+        t.start()
+    for t in ths:
+        t.join()
+    ref = cli.sfs(args, stdin=inp)
+    S.count("output_path_concurrent_pairs")
+    for k in (0, 1):
+        found = open(outs[k], "rb").read() if os.path.exists(outs[k]) else None
+        if runs[k].rc != ref.rc or (ref.rc == 0 and found != ref.out):
+            S.viol(sig, "[%s: two invocations at once writing %s and %s] %s: rc %s stderr %r, the file holds %s bytes, a pipe receives %d" % (
+                tag, os.path.basename(outs[0]), os.path.basename(outs[1]), os.path.basename(outs[k]), runs[k].rc, runs[k].err[:160],
+                "no" if found is None else len(found), len(ref.out)), {"level": "C", "argv": runs[k].argv, "input_b64": E.b64(inp[:100000]), "concurrent_outputs": outs})
+            break
+
+
 def check_file_equals_pipe(S, sig, tag, rng, args, inp, state=None, wit=None):
     """The oracle: same command to a pipe. Reading and writing one path in one invocation is not promised to work, so a FAILED
     in-place run is not judged; a successful one must have written the right bytes."""
+    if rng.random() < 0.2:
+        check_concurrent_siblings(S, sig, tag, rng, args, inp)
     r, found, state, stale = run_to_path(rng, args, inp, state)
     ref = cli.sfs(args, stdin=inp)
     S.count("output_path_runs")
     S.observe("output_path_state", state)
+    # writing FILE touches FILE only: neighbours with the same stem (x.tmp, x.bak, x~, .x.swp, ...) keep their content
+    for nb, content in getattr(run_to_path, "last_neighbours", []):
+        now = open(nb, "rb").read() if os.path.exists(nb) else None
+        if now != content:
+            S.viol(sig, "[%s: %s -o %s] the neighbouring file %s was %s" % (tag, " ".join(map(str, args)), os.path.basename(r.argv[-1] if state != "in-place" else r.argv[-2]),
+                   os.path.basename(nb), "removed" if now is None else "overwritten (%d bytes now)" % len(now)), dict(wit or {}, level="C", argv=r.argv, path_state=state))
+            break
     if state == "in-place" and r.rc != 0:
         return r, found
     if r.rc != ref.rc or (r.rc == 0 and found != ref.out):
